@@ -28,7 +28,7 @@ MODULE = 'SshAudit.Props.C18'
 NAMESPACE = 'SshAudit.C18'
 THEOREMS = ['portText_showNat', 'parse_name', 'parse_name_port', 'parse_bare_v6', 'parse_bracket', 'parse_bracket_port', 'parse_forms',
             'ipv6_two_colons', 'cmdline_port_default', 'cmdline_bad_target_port', 'cmdline_bad_option',
-            'ip_pref_partial', 'ip_order_lost', 'ip_order_lost_witness', 'ip_order_lost_dials_v4', 'family_single',
+            'cmdline_family_order', 'family_single', 'run_family_order', 'prefer_v6_dials_v6',
             'family_order', 'family_order_single', 'resolveOrder_perm', 'first_only',
             'label_spelled', 'label_matches', 'label_verbose_matches', 'label_json_matches', 'json_label_v6_not_reparsed',
             'ipv6_no_brackets', 'label_matches_doc', 'spelled_ipv6',
@@ -44,8 +44,7 @@ LEVEL_TEXT = ('Proved for all strings, ports and resolver answers about the Lean
               'The model is executed by a compiled driver and compared with the real functions unit-wise and with whole main() runs on an in-process fake network; an independent '
               'oracle (generator ground truth + ipaddress) checks the same on the real code.')
 LEVEL_NOTE = ('Trusted: Lean kernel, the correspondence harness/generators/fakenet, the argv->argparse mapping, CPython built-ins (int, str.strip, re, readlines, ipaddress, sorted) '
-              'which are modelled and differential-tested, not verified. Finding D33 (proved as ip_order_lost / ip_order_lost_dials_v4): -64 (any -6 written before -4) is recorded as '
-              '[4, 6], so IPv4 is dialled first; ip_pref_partial covers every other flag combination. cmdline_port_default and file_targets_clean hold of the code after the D18/D19 repairs. '
+              'which are modelled and differential-tested, not verified. cmdline_port_default, file_targets_clean and cmdline_family_order hold of the code after the D18/D19/D33 repairs (their old witnesses run first in every check). '
               'For IPv6 hosts with a scope id the label theorems assume the host text has no brackets (ipaddress accepts any scope text); scope-free literals need no assumption (ipv6_no_brackets). Observation D30: JSON target of an IPv6 host is not re-parseable.')
 
 AF4, AF6 = int(socket.AF_INET), int(socket.AF_INET6)
@@ -227,7 +226,7 @@ def impl_order(flags, rows):
     import fakenet
     from ssh_audit.ssh_socket import SSH_Socket
     from ssh_audit.outputbuffer import OutputBuffer
-    pref = [int(c) for c in flags]      # the ip_version_preference list itself (API level; the command line never produces [6, 4]: D33)
+    pref = [int(c) for c in flags]      # the ip_version_preference list itself (API level)
     net = fakenet.FakeNet({}, resolver=lambda host, port, family: [
         (af, st, 6, '', (ip, port) if af == AF4 else (ip, port, 0, 0)) for (_h, af, st, ip) in rows])
     with fakenet.patched(net):
@@ -866,7 +865,7 @@ def build_unit_cases(ctx):
     """(op, arg, tags, oracle-kind, oracle-input)"""
     r = ctx.rng
     cases = []
-    # corpus first: the D18 / D19 witnesses (repaired in /repo: must pass), D33 witness (known finding)
+    # corpus first: the D18 / D19 / D33 witnesses (all repaired in /repo: must pass)
     cases.append(('target.cmdline', ('[::1]', 2222, '', False, None), ['corpus-D18'], 'cmdline', {'text': '[::1]', 'oport': 2222, 'flags': '', 'host': '::1', 'port': None}))
     cases.append(('target.cmdline', ('10.0.0.1:22', 2222, '', False, None), ['corpus-D18'], 'cmdline', {'text': '10.0.0.1:22', 'oport': 2222, 'flags': '', 'host': '10.0.0.1', 'port': 22}))
     cases.append(('target.file', 'a\n \t \nb\n', ['corpus-D19'], 'file', {'file_text': 'a\n \t \nb\n', 'oport': None, 'targets': ['a', 'b']}))
@@ -1033,6 +1032,8 @@ def replay(obj):
         print('connect calls (af, ip, port):', uniq(obs['connects']))
         print('labels:', labels_of(inp, obs['out']))
         oracle_run(inp, obs, fail)
+        for x in fs[:3]:
+            print('observed:', json.dumps(x['observed'], default=str)[:400], ' expected:', json.dumps(x['expected'], default=str)[:400])
     elif level in ('parse', 'cmdline', 'file', 'label', 'order'):
         print('input:', json.dumps({k: v for k, v in inp.items() if k != 'level'})[:600])
         oracle_unit(level, inp, fail)
